@@ -261,6 +261,7 @@ Record WFacts (top : string) (s s' : wstate) : Prop := mkWF {
   wf_frame : forall p, In p (wseen s) -> get_mod (wt s') p = get_mod (wt s) p;     (* modules entered before are not touched *)
   wf_incl : incl (wseen s) (wseen s');
   wf_order : exists order, (forall m, In m order -> ~ In m (wseen s)) /\
+                           wdone s' = rev order ++ wdone s /\      (* the order in which the modules are marked done *)
                            (ok_run (FLof (wt s)) top order (wt s) -> wt s' = wsteps (FLof (wt s)) top order (wt s))
 }.
 
@@ -272,7 +273,7 @@ Proof.
   intros Hk. split; auto.
   - apply back_refl.
   - apply incl_refl.
-  - exists []. split; [intros m []|]. intros _. reflexivity.
+  - exists []. split; [intros m []|]. split; [reflexivity|]. intros _. reflexivity.
 Qed.
 
 Lemma FLof_len t t' : List.length t' = List.length t -> FLof t' = FLof t.
@@ -280,16 +281,17 @@ Proof. intros H. unfold FLof. rewrite H. reflexivity. Qed.
 
 (* two calls in a row, the second starting in a state that has the table and the seen-set the first one ended with *)
 Lemma WFacts_trans top s s1 s2 s' :
-  WFacts top s s1 -> wt s2 = wt s1 -> wseen s2 = wseen s1 -> WFacts top s2 s' -> WFacts top s s'.
+  WFacts top s s1 -> wt s2 = wt s1 -> wseen s2 = wseen s1 -> wdone s2 = wdone s1 -> WFacts top s2 s' -> WFacts top s s'.
 Proof.
-  intros [K1 B1 L1 F1 I1 [o1 [N1 O1]]] Ht Hs [K2 B2 L2 F2 I2 [o2 [N2 O2]]]. rewrite Ht in *. rewrite Hs in *. split; auto.
+  intros [K1 B1 L1 F1 I1 [o1 [N1 [D1 O1]]]] Ht Hs Hd [K2 B2 L2 F2 I2 [o2 [N2 [D2 O2]]]]. rewrite Ht in *. rewrite Hs in *. rewrite Hd in *. split; auto.
   - eapply back_trans; eauto.
   - congruence.
   - intros p Hp. rewrite F2 by (apply I1; auto). apply F1. auto.
   - intros x Hx. apply I2. apply I1. auto.
   - exists (o1 ++ o2). split.
     + intros m Hm. apply in_app_or in Hm. destruct Hm as [Hm|Hm]; auto. intros Hin. apply (N2 m Hm). apply I1. auto.
-    + intros Hok. apply ok_run_app in Hok. destruct Hok as [Hok1 Hok2]. rewrite wsteps_app, <- (O1 Hok1).
+    + split; [rewrite D2, D1, rev_app_distr, <- app_assoc; reflexivity|].
+      intros Hok. apply ok_run_app in Hok. destruct Hok as [Hok1 Hok2]. rewrite wsteps_app, <- (O1 Hok1).
       rewrite (FLof_len _ _ L1) in O2. apply O2. rewrite (O1 Hok1). exact Hok2.
 Qed.
 
@@ -319,37 +321,37 @@ Lemma wloop_spec : forall ms ex rm s ex' rm' s',
 Proof.
   induction ms as [|[n m] ms IH]; intros ex rm s ex' rm' s' Hx Hk.
   - simpl in Hx. inversion Hx; subst. split; [apply WFacts_refl; auto|]. intros _. simpl. rewrite !app_nil_r. auto.
-  - assert (Hskip : forall s0, wt s0 = wt s -> wseen s0 = wseen s ->
+  - assert (Hskip : forall s0, wt s0 = wt s -> wseen s0 = wseen s -> wdone s0 = wdone s ->
                       wloop rec top mp ms ex rm s0 = Done (ex', rm', s') ->
                       (stars_resolve (wt s') top ((n, m) :: ms) ->
                        star_entries (wt s') top [(n, m)] = [] /\ star_names_of [(n, m)] = []) ->
                       WFacts top s s' /\
                       (stars_resolve (wt s') top ((n, m) :: ms) ->
                        ex' = ex ++ star_entries (wt s') top ((n, m) :: ms) /\ rm' = rm ++ star_names_of ((n, m) :: ms))).
-    { intros s0 Ht0 Hs0 Hx0 Hnil. assert (Hk0 : keys_ok (wt s0)) by (rewrite Ht0; auto).
+    { intros s0 Ht0 Hs0 Hd0 Hx0 Hnil. assert (Hk0 : keys_ok (wt s0)) by (rewrite Ht0; auto).
       destruct (IH _ _ _ _ _ _ Hx0 Hk0) as [Hf Hc2]. split.
       - apply (WFacts_trans top s s s0 s'); auto. apply WFacts_refl. auto.
       - intros Hres. destruct (Hnil Hres) as [He Hn]. destruct (Hc2 (stars_resolve_tail _ _ _ Hres)) as [Hex Hrm].
         change ((n, m) :: ms) with ([(n, m)] ++ ms). unfold star_entries, star_names_of in *. rewrite !flat_map_app, He, Hn. simpl. auto. }
     assert (Hcall : forall q s1, rec q s = Done s1 -> mem_path q (wseen s) = false -> forall s2 ex2 rm2,
-                      wt s2 = wt s1 -> wseen s2 = wseen s1 ->
+                      wt s2 = wt s1 -> wseen s2 = wseen s1 -> wdone s2 = wdone s1 ->
                       wloop rec top mp ms ex2 rm2 s2 = Done (ex', rm', s') ->
                       WFacts top s s' /\ In q (wseen s2) /\
                       (forall p, In p (wseen s2) -> get_mod (wt s') p = get_mod (wt s2) p) /\
                       (stars_resolve (wt s') top ms -> ex' = ex2 ++ star_entries (wt s') top ms /\ rm' = rm2 ++ star_names_of ms)).
-    { intros q s1 Hr Hseen s2 ex2 rm2 Ht2 Hs2 Hx2.
+    { intros q s1 Hr Hseen s2 ex2 rm2 Ht2 Hs2 Hd2 Hx2.
       assert (Hq : ~ In q (wseen s)) by (intros Hin; apply mem_path_In in Hin; congruence).
       destruct (Hrec q s s1 Hr Hq Hk) as [Hf1 Hq1].
       assert (Hk2 : keys_ok (wt s2)) by (rewrite Ht2; apply (wf_keys _ _ _ Hf1)).
       destruct (IH _ _ _ _ _ _ Hx2 Hk2) as [Hf2 Hc2]. split; [eapply WFacts_trans; eauto|]. split; [rewrite Hs2; auto|]. split; auto.
       apply (wf_frame _ _ _ Hf2). }
     destruct m as [k l0| |tgt ln [|]|src inner l0].
-    + (* a definition *) apply (Hskip s eq_refl eq_refl Hx). intros _. auto.
+    + (* a definition *) apply (Hskip s eq_refl eq_refl eq_refl Hx). intros _. auto.
     + (* a submodule *)
       simpl in Hx. destruct (mem_path (mp ++ [n]) (wseen s)) eqn:Eseen.
-      * apply (Hskip s eq_refl eq_refl Hx). intros _. auto.
+      * apply (Hskip s eq_refl eq_refl eq_refl Hx). intros _. auto.
       * destruct (rec (mp ++ [n]) s) as [s1| |] eqn:Er; try discriminate.
-        destruct (Hcall _ s1 Er Eseen s1 ex rm eq_refl eq_refl Hx) as [Hf [_ [_ Hc2]]]. split; auto.
+        destruct (Hcall _ s1 Er Eseen s1 ex rm eq_refl eq_refl eq_refl Hx) as [Hf [_ [_ Hc2]]]. split; auto.
         intros Hres. destruct (Hc2 (stars_resolve_tail _ _ _ Hres)) as [Hex Hrm]. auto.
     + (* a wildcard import *)
       simpl in Hx. destruct (lookup_path (wt s) top tgt) as [q|amp an am| |] eqn:El.
@@ -367,6 +369,7 @@ Proof.
         -- match type of Hx with wloop _ _ _ _ _ _ ?sx = _ => set (s2 := sx) in Hx end.
            assert (Ht2 : wt s2 = wt s1) by (unfold s2; destruct (_ && _); reflexivity).
            assert (Hs2 : wseen s2 = wseen s1) by (unfold s2; destruct (_ && _); reflexivity).
+           assert (Hd2 : wdone s2 = wdone s1) by (unfold s2; destruct (_ && _); reflexivity).
            assert (Hk2 : keys_ok (wt s2)) by (rewrite Ht2; auto).
            destruct (IH _ _ _ _ _ _ Hx Hk2) as [Hf2 Hc2]. split; [eapply WFacts_trans; eauto|].
            intros Hres. destruct (Hc2 (stars_resolve_tail _ _ _ Hres)) as [Hex Hrm].
@@ -385,7 +388,7 @@ Proof.
            rewrite (wf_frame _ _ _ Hf2 q Hq1) in Hg'. congruence.
       * (* the target is a member, not a module: the pseudo-member stays; excluded by stars_resolve *)
         destruct (IH _ _ _ _ _ _ Hx Hk) as [Hf2' Hc2].
-        assert (Hf2 : WFacts top s s') by (eapply (WFacts_trans top s s _ s' (WFacts_refl top s Hk)); [| |exact Hf2']; reflexivity).
+        assert (Hf2 : WFacts top s s') by (eapply (WFacts_trans top s s _ s' (WFacts_refl top s Hk)); [| | |exact Hf2']; reflexivity).
         split; [exact Hf2|].
         intros Hres. exfalso. destruct (Hres n tgt ln (or_introl eq_refl)) as [q' [stq' [Hl' Hg']]].
         pose proof (lookup_path_back _ _ top tgt q' (wf_back _ _ _ Hf2) Hl') as Hl0. simpl in Hl0. congruence.
@@ -393,12 +396,12 @@ Proof.
         intros Hres. exfalso. destruct (Hres n tgt ln (or_introl eq_refl)) as [q' [stq' [Hl' Hg']]].
         pose proof (lookup_path_back _ _ top tgt q' (wf_back _ _ _ Hf2) Hl') as Hl0. congruence.
       * destruct (IH _ _ _ _ _ _ Hx Hk) as [Hf2' Hc2].
-        assert (Hf2 : WFacts top s s') by (eapply (WFacts_trans top s s _ s' (WFacts_refl top s Hk)); [| |exact Hf2']; reflexivity).
+        assert (Hf2 : WFacts top s s') by (eapply (WFacts_trans top s s _ s' (WFacts_refl top s Hk)); [| | |exact Hf2']; reflexivity).
         split; [exact Hf2|].
         intros Hres. exfalso. destruct (Hres n tgt ln (or_introl eq_refl)) as [q' [stq' [Hl' Hg']]].
         pose proof (lookup_path_back _ _ top tgt q' (wf_back _ _ _ Hf2) Hl') as Hl0. simpl in Hl0. congruence.
-    + (* an explicit import *) apply (Hskip s eq_refl eq_refl Hx). intros _. auto.
-    + (* a member created by an earlier expansion *) apply (Hskip s eq_refl eq_refl Hx). intros _. auto.
+    + (* an explicit import *) apply (Hskip s eq_refl eq_refl eq_refl Hx). intros _. auto.
+    + (* a member created by an earlier expansion *) apply (Hskip s eq_refl eq_refl eq_refl Hx). intros _. auto.
 Qed.
 
 End WLoopSpec.
@@ -416,7 +419,7 @@ Proof.
   { split; auto.
     - apply back_refl.
     - intros x Hx0. right. auto.
-    - exists []. split; [intros m []|]. intros _. reflexivity. }
+    - exists []. split; [intros m []|]. split; [reflexivity|]. intros _. reflexivity. }
   destruct (get_mod (wt s) mp) as [st0|] eqn:Eg.
   2:{ inversion Hx; subst s'. split; auto. left. auto. }
   destruct (wloop (expw f top) top mp (members st0) [] [] s0) as [[[ex rm] s1]| |] eqn:El; try discriminate.
@@ -445,10 +448,11 @@ Proof.
   - intros p Hp. unfold set_mod_members. rewrite Hmp1. rewrite get_set_other by (intros Heq; subst; contradiction).
     apply (wf_frame _ _ _ Hf1). right. auto.
   - intros x Hx0. apply (wf_incl _ _ _ Hf1). right. auto.
-  - destruct (wf_order _ _ _ Hf1) as [order1 [Hn1 Ho1]]. exists (order1 ++ [mp]). split.
+  - destruct (wf_order _ _ _ Hf1) as [order1 [Hn1 [Hd1 Ho1]]]. exists (order1 ++ [mp]). split; [|split].
     + intros m Hm. apply in_app_or in Hm. destruct Hm as [Hm|[Hm|[]]].
       * intros Hin. apply (Hn1 m Hm). right. auto.
       * subst m. auto.
+    + change (wdone s0) with (wdone s) in Hd1. rewrite Hd1, rev_app_distr. reflexivity.
     + intros Hok. apply ok_run_app in Hok. destruct Hok as [Hok1 [Hmpok _]].
       change (wt s0) with (wt s) in Ho1. rewrite wsteps_app, <- (Ho1 Hok1). rewrite <- (Ho1 Hok1) in Hmpok.
       destruct (Hc2 (Hmpok st0 Hmp1)) as [Hex Hrm]. simpl in Hex, Hrm.
@@ -461,7 +465,7 @@ Qed.
    pseudo-member in place, which the schedule does not model). *)
 Theorem expw_is_a_schedule fuel top mp s s' :
   expw fuel top mp s = Done s' -> ~ In mp (wseen s) -> keys_ok (wt s) ->
-  exists order, (forall m, In m order -> ~ In m (wseen s)) /\
+  exists order, (forall m, In m order -> ~ In m (wseen s)) /\ wdone s' = rev order ++ wdone s /\
                 (ok_run (S (List.length (wt s) * 8 + 64)) top order (wt s) ->
                  wt s' = fold_left (sched_wild_step (S (List.length (wt s) * 8 + 64)) top) order (wt s)).
 Proof.
@@ -497,6 +501,26 @@ Proof.
   apply attach_fold_keys. unfold visit_body. apply visit_fold_keys. constructor.
 Qed.
 
+(* both phases of griffe_load, with their orders: the modules in the order in which each phase marks them done *)
+Theorem load_phases_explicit top ms x w :
+  expx (total_fuel ms) top [top] (mkX (initial_table ms) [] false [] [] [] []) = Done x ->
+  expw (total_fuel ms) top [top] (mkW (xt x) [] [] [] (xunsup x) [] []) = Done w ->
+  let fl := S (List.length ms * 8 + 64) in
+  let tx := fold_left (sched_exports_step fl top) (rev (xdone x)) (initial_table ms) in
+  xt x = tx /\
+  (ok_run fl top (rev (wdone w)) tx -> wt w = fold_left (sched_wild_step fl top) (rev (wdone w)) tx).
+Proof.
+  intros Ex Ew. simpl. pose proof (load_exports_phase top ms x Ex) as Htx. split; [exact Htx|].
+  assert (Hkx : keys_ok (xt x)).
+  { rewrite Htx. apply (xsteps_keys (S (List.length ms * 8 + 64)) top (rev (xdone x))). apply initial_keys. }
+  destruct (expw_is_a_schedule _ _ _ _ _ Ew) as [order_w [_ [Hd Hw]]]; [intros []|exact Hkx|].
+  simpl in Hw, Hd. rewrite app_nil_r in Hd.
+  assert (Hlen : List.length (xt x) = List.length ms).
+  { rewrite Htx. fold (xsteps (S (List.length ms * 8 + 64)) top (rev (xdone x)) (initial_table ms)).
+    rewrite <- (proj1 (xsteps_same (S (List.length ms * 8 + 64)) top (rev (xdone x)) (initial_table ms))). unfold initial_table. apply map_length. }
+  rewrite Hd, rev_involutive. rewrite Hlen in Hw. rewrite <- Htx. exact Hw.
+Qed.
+
 Theorem load_is_two_schedules top ms l :
   griffe_load top ms = Done l ->
   exists order_x order_w,
@@ -507,34 +531,11 @@ Proof.
   unfold griffe_load. intros Hl.
   destruct (expx (total_fuel ms) top [top] (mkX (initial_table ms) [] false [] [] [] [])) as [x| |] eqn:Ex; try discriminate.
   destruct (expw (total_fuel ms) top [top] (mkW (xt x) [] [] [] (xunsup x) [] [])) as [w| |] eqn:Ew; try discriminate.
-  inversion Hl; subst l. simpl.
-  destruct (load_exports_phase top ms x Ex) as [order_x [Htx _]].
-  assert (Hkx : keys_ok (xt x)) by (rewrite Htx; apply xsteps_keys; apply initial_keys).
-  destruct (expw_is_a_schedule _ _ _ _ _ Ew) as [order_w [_ Hw]]; [intros []|exact Hkx|].
-  simpl in Hw. exists order_x, order_w.
-  assert (Hlen : List.length (xt x) = List.length ms).
-  { rewrite Htx. fold (xsteps (S (List.length ms * 8 + 64)) top order_x (initial_table ms)).
-    rewrite <- (proj1 (xsteps_same (S (List.length ms * 8 + 64)) top order_x (initial_table ms))). unfold initial_table. apply map_length. }
-  rewrite Hlen, Htx in Hw. exact Hw.
+  inversion Hl; subst l. simpl. exists (rev (xdone x)), (rev (wdone w)).
+  apply (proj2 (load_phases_explicit top ms x w Ex Ew)).
 Qed.
 
 (* ---- the side condition is decidable; it holds on the example program of the composition theorem ---- *)
-Definition stars_resolveb (t : table) (top : string) (ms : list (string * member)) : bool :=
-  forallb (fun nm => match snd nm with
-                     | MAlias tgt _ true => match lookup_path t top tgt with
-                                            | LMod q => match get_mod t q with Some _ => true | None => false end
-                                            | _ => false
-                                            end
-                     | _ => true
-                     end) ms.
-
-Fixpoint ok_runb (fl : nat) (top : string) (order : list path) (t : table) : bool :=
-  match order with
-  | [] => true
-  | m :: r => match get_mod t m with Some st => stars_resolveb t top (members st) | None => true end
-              && ok_runb fl top r (sched_wild_step fl top t m)
-  end.
-
 Lemma stars_resolveb_ok t top ms : stars_resolveb t top ms = true -> stars_resolve t top ms.
 Proof.
   unfold stars_resolveb. rewrite forallb_forall. intros H n tgt ln Hin. specialize (H _ Hin). simpl in H.
@@ -561,4 +562,16 @@ Proof.
   split.
   - apply ok_runb_ok. vm_compute. reflexivity.
   - eexists. split; vm_compute; reflexivity.
+Qed.
+
+Lemma load_phases_decidable top ms x w :
+  expx (total_fuel ms) top [top] (mkX (initial_table ms) [] false [] [] [] []) = Done x ->
+  expw (total_fuel ms) top [top] (mkW (xt x) [] [] [] (xunsup x) [] []) = Done w ->
+  let fl := S (List.length ms * 8 + 64) in
+  let tx := fold_left (sched_exports_step fl top) (rev (xdone x)) (initial_table ms) in
+  xt x = tx /\
+  (ok_runb fl top (rev (wdone w)) tx = true -> wt w = fold_left (sched_wild_step fl top) (rev (wdone w)) tx).
+Proof.
+  intros Ex Ew. destruct (load_phases_explicit top ms x w Ex Ew) as [H1 H2]. split; [exact H1|].
+  intros Hb. apply H2. apply ok_runb_ok. exact Hb.
 Qed.
